@@ -11,6 +11,9 @@ import TbbVerif.Proofs.C01.VertexInv
 import TbbVerif.Proofs.C01.Deque
 import TbbVerif.Proofs.C01.StreamInv
 import TbbVerif.Proofs.C01.MailboxStep
+import TbbVerif.Proofs.C01.DequeTso
+import TbbVerif.Proofs.C01.DispNested
+import TbbVerif.Proofs.C01.DispatchIface
 import TbbVerif.Generated.C01
 
 namespace TbbVerif.C01
@@ -294,6 +297,346 @@ example :
     let s := (Stream.sys 2 [[.push 5 0 0, .push 6 0 0], [.pop 0, .pop 0]]).run
       ([0, 0, 0, 0, 1, 1, 1, 1, 1, 1, 1, 0, 0, 0, 0, 1, 1, 1, 1, 1, 1, 1] : List Tid)
     s.pushed = [6, 5] ∧ s.bad = false ∧ Stream.poppedAll s = [6, 5] ∧ Stream.inLanes s = [] := by
+  decide
+
+/-! ### the deque's last-task arbitration under x86-TSO store buffers (1 owner × 1 thief, one task)
+
+`DequeTso.sys o` (Model/C01Tso.lean): one `get_task` of the owner against one `steal_task` of a thief on a published pool
+holding exactly one task, every thread with a FIFO store buffer; schedule actions 0/1 = owner/thief instruction, 2/3 =
+flush the oldest buffered store of the owner/thief.  `o : Orders` says whether `--tail` / `++head` are seq_cst
+read-modify-writes (x86: `lock`-prefixed, they drain the buffer) and whether a seq_cst fence follows them. -/
+
+/-- **The last task is taken exactly once under store buffers.**  If both Dekker sides have a store→load barrier
+(`fencesOK`: the owner between its update of `tail` and its load of `head`, the thief between its update of `head` and
+its load of `tail`), then for EVERY schedule including every flush order: owner and thief never both return the task,
+and when both calls have returned one of them did.  (1 owner × 1 thief on the last-task window — not the N-thief deque,
+which is proved for sequentially consistent interleavings by `deque_last_task_arbitration`.) -/
+theorem deque_last_task_arbitration_tso (o : DequeTso.Orders) (hok : DequeTso.fencesOK o = true) (sched : List Tid) :
+    let s := (DequeTso.sys o).run sched
+    (s.oGot && s.tGot) = false ∧ (s.opc = .done → s.tpc = .done → (s.oGot || s.tGot) = true) := by
+  intro s
+  have h := DequeTso.orders_not_bad o hok sched
+  unfold DequeTso.bad DequeTso.double DequeTso.lostTask at h
+  rw [Bool.or_eq_false_iff] at h
+  refine ⟨h.1, fun h1 h2 => ?_⟩
+  have h3 := h.2
+  change (s.opc == .done && s.tpc == .done && !s.oGot && !s.tGot) = false at h3
+  rw [h1, h2] at h3
+  cases ho : s.oGot <;> cases ht : s.tGot <;> simp [ho, ht] at h3 ⊢
+
+/-- **The owner's barrier is necessary.**  With `--tail` demoted to a load and a plain store and no fence after it (the
+thief unchanged) this schedule hands the last task out twice: the owner's store of `tail` stays in its store buffer, the
+owner reads `head = 0 ≤ T` and takes the task; the thief locks the pool, increments `head`, reads the stale `tail = 1`
+from memory and takes the same task. -/
+theorem deque_tso_needs_owner_fence :
+    DequeTso.fencesOK ⟨false, false, true, false⟩ = false ∧
+    DequeTso.double ((DequeTso.sys ⟨false, false, true, false⟩).run [0, 0, 0, 0, 0, 0, 1, 1, 1, 1, 1, 1]) = true := by
+  decide
+
+/-- **The thief's barrier is necessary** (symmetric: `++head` as a plain store without a fence). -/
+theorem deque_tso_needs_thief_fence :
+    DequeTso.fencesOK ⟨true, false, false, false⟩ = false ∧
+    DequeTso.double ((DequeTso.sys ⟨true, false, false, false⟩).run [0, 0, 1, 1, 1, 1, 1, 1, 1, 0, 0, 0]) = true := by
+  decide
+
+/-- The memory orders the real code executes at the two Dekker sites (regenerated from the E-SHIM trace of
+`arena_slot::get_task` / `steal_task` on every run, `Generated/C01.lean`) satisfy `fencesOK`. -/
+theorem deque_fences_ok_observed : DequeTso.fencesOK Generated.C01.dequeOrders = true := by decide
+
+/-- `deque_last_task_arbitration_tso` instantiated with the observed orders. -/
+theorem deque_last_task_arbitration_tso_observed (sched : List Tid) :
+    let s := (DequeTso.sys Generated.C01.dequeOrders).run sched
+    (s.oGot && s.tGot) = false ∧ (s.opc = .done → s.tpc = .done → (s.oGot || s.tGot) = true) :=
+  deque_last_task_arbitration_tso _ deque_fences_ok_observed sched
+
+/-- non-vacuity: under the orders of the current tree the thief wins one schedule, the owner another -/
+example :
+    ((DequeTso.sys ⟨true, false, true, false⟩).run [1, 1, 1, 1, 1, 1, 3, 0, 0, 0, 0, 0, 0, 0, 0, 0, 0, 0, 0]).tGot = true ∧
+    ((DequeTso.sys ⟨true, false, true, false⟩).run [0, 0, 0, 0, 0, 1, 1]).oGot = true := by decide
+
+/-! ### the container interface of the composition model, discharged by the component theorems
+
+`BagLaw puts takes inside` (Proofs/C01/DispatchIface.lean): everything put into a container is either taken out or still
+inside, as multisets.  This is ALL the composition model `Dispatch` uses of a task pool, a mailbox or a task stream (its
+containers are bags: `submit` adds one entry, a take removes exactly the entry it returns — `BagLaw.put`, `BagLaw.take`).
+The following four theorems instantiate the interface with the access-level protocol models; they are corollaries of the
+component theorems above, so the composition theorems import NO hypothesis about the containers. -/
+
+/-- the work-stealing deque of a slot is a bag, in every reachable state of every schedule (any number of thieves) -/
+theorem deque_implements_bag (cfg : Deque.Cfg) (oprog : List Deque.OOp) (tprogs : List (List Nat))
+    (hcfg : 0 < cfg.granule ∧ 0 < cfg.minSize) (sched : List Tid)
+    (s : Deque.St) (hs : s = (Deque.sys cfg oprog tprogs).run sched) :
+    (∃ l, BagLaw s.spawned (Deque.returned s ++ Deque.inflight s) l) ∧
+    (Deque.Quiescent s → BagLaw s.spawned (Deque.returned s) (Deque.resident s)) := by
+  obtain ⟨⟨l, hp⟩, hq, _⟩ := deque_conservation cfg oprog tprogs hcfg sched s hs
+  exact ⟨⟨l, hp⟩, hq⟩
+
+/-- the mailbox of a slot is a bag (any number of pushers) -/
+theorem mailbox_implements_bag (cprog : List Nat) (pprogs : List (List Nat)) (sched : List Tid)
+    (s : Mailbox.St) (hs : s = (Mailbox.sys cprog pprogs).run sched) :
+    BagLaw s.order (Mailbox.popped s) (Mailbox.queue s) :=
+  (mailbox_no_loss_no_dup cprog pprogs sched s hs).1
+
+/-- a task stream is a bag (any number of lanes and threads) -/
+theorem stream_implements_bag (n : Nat) (progs : List (List Stream.Op)) (hn : 0 < n) (sched : List Tid)
+    (s : Stream.St) (hs : s = (Stream.sys n progs).run sched) :
+    BagLaw s.pushed (Stream.poppedAll s ++ Stream.tRes s.ths) (Stream.inLanes s) :=
+  (stream_conservation n progs hn sched s hs).1
+
+/-- the two-sided claim of a proxy: at most one side gets the task, exactly one when both are done; the other side —
+and only it — frees the proxy, after the winner's last access -/
+theorem proxy_implements_claim (sched : List Tid) (s : Proxy.St) (hs : s = Proxy.sys.run sched) :
+    Proxy.taken s ≤ 1 ∧ (Proxy.allDone s = true → Proxy.taken s = 1 ∧ Proxy.freedN s = 1) ∧
+    (∀ x ∈ s.sides, x.freed = true → x.got = false) ∧ s.bad = false := by
+  obtain ⟨a, b⟩ := proxy_exactly_once sched s hs
+  obtain ⟨_, d, e, _, g⟩ := proxy_freed_once sched s hs
+  exact ⟨a, fun h => ⟨b h, d h⟩, e, g⟩
+
+/-! ### the whole dispatcher: composition (`Dispatch`, Model/C01Dispatch.lean)
+
+`Dispatch.Reachable s`: `s` is reached from the initial state of SOME configuration (any number of arenas, slots and
+threads) by SOME sequence of enabled actions — submissions by running units or group owners (= all programs),
+takes / misses / executions by any thread (= all schedules), threads entering and leaving arenas, cancellations, waits. -/
+
+open Dispatch in
+/-- The look-up order of the real dispatcher, re-extracted from the source text of src/tbb/task_dispatcher.h on every run
+(`local_wait_for_all`: bypass loop, `slot.get_task`, `receive_or_steal_task`; there the else-if chain: inbox, resume
+stream, fifo stream, steal, critical), names every one of the seven sources of the model exactly once and starts with the
+bypass loop — so it is a legal `order` parameter of `Dispatch.init`, which is what the validator runs the model with.  The
+composition theorems below hold for EVERY order (`Reachable` quantifies over it): the property does not depend on the
+order in which a thread looks for work, only on every source being a bag that is consulted by somebody. -/
+theorem generated_dispatch_order :
+    (Generated.C01.dispatchOrder.mapM Src.ofName).map (fun o => (o.length, o.head?, Dispatch.order.all (o.contains ·))) =
+      some (7, some .bypass, true) := by decide
+
+open Dispatch in
+/-- … and in the current tree it is the order the model documents (`Dispatch.order`); this is a statement about the
+tree, not an assumption of any theorem: a re-ordered chain changes `Generated.C01.dispatchOrder` and nothing else. -/
+example : Dispatch.order.map Src.name = ["bypass", "local", "mailbox", "resume", "fifo", "steal", "critical"] := by decide
+
+open Dispatch in
+/-- **Every unit is carried out at most once — and exactly once by the time its group's wait has returned; it is
+skipped (`cancel()` instead of `execute()`) only if its context was cancelled.**  For every reachable state and every
+unit `u`: the number of `execute()` calls plus `cancel()` calls is at most 1; it is 0 exactly while the unit is still
+pending; if the wait on its group has returned (`closed`) it is exactly 1 and the unit has released its reference; a
+`cancel()` call implies that its context's cancellation flag is set. -/
+theorem dispatch_exactly_once {s : St} (hr : Reachable s) (u : Nat) (x : UnitR) (hu : s.units[u]? = some x) :
+    x.nexec + x.ncancel ≤ 1 ∧
+    (x.nexec + x.ncancel = 0 ↔ x.st = .pending) ∧
+    (∀ G : Group, s.groups[x.grp]? = some G → G.closed = true →
+        x.nexec + x.ncancel = 1 ∧ (x.st = .released ∨ x.st = .done)) ∧
+    (0 < x.ncancel → s.ctxs[x.ctx]?.getD false = true) := by
+  have h := inv_reachable hr
+  have hc := h.ictr u x hu
+  refine ⟨?_, ?_, ?_, h.icanc u x hu⟩
+  · split at hc <;> omega
+  · constructor
+    · intro h0
+      split at hc
+      · assumption
+      · omega
+    · intro hp; simp only [hp, if_true] at hc; exact hc
+  · intro G hG hcl
+    have hst := h.iclosed u x G hu hG hcl
+    refine ⟨?_, hst⟩
+    rcases hst with h1 | h1 <;> simp [h1] at hc <;> exact hc
+
+open Dispatch in
+/-- **No unit is lost and none is in two places.**  In every reachable state, for every unit `u`:
+while it is pending it can be taken from EXACTLY ONE place — one cell of one task pool, one entry of one stream, one
+thread's hand (bypass), or one live proxy — and no thread executes it; while it runs it is in no container and in
+exactly one `exec` frame of exactly one thread; when it is done it is nowhere.  For every proxy `p`: a live proxy
+(`shared`) is referred to by exactly one pool cell AND exactly one mailbox entry (the unit is in pool + mailbox through
+it); once one side has claimed the task the proxy stays in exactly the OTHER container until that side frees it; a
+freed proxy is referenced from nowhere.  Ids that were never allocated appear nowhere. -/
+theorem dispatch_no_loss {s : St} (hr : Reachable s) :
+    (∀ (u : Nat) (x : UnitR), s.units[u]? = some x →
+        (x.st = .pending → occ s u = 1 ∧ frameCount s u = 0) ∧
+        (x.st = .running ∨ x.st = .released → occ s u = 0 ∧ frameCount s u = 1) ∧
+        (x.st = .done → occ s u = 0 ∧ frameCount s u = 0)) ∧
+    (∀ (p : Nat) (X : Proxy), s.proxies[p]? = some X →
+        (X.tag = .shared → poolCount s (.proxy p) = 1 ∧ boxCount s p = 1 ∧
+            ∃ x : UnitR, s.units[X.unit]? = some x ∧ x.st = .pending) ∧
+        (X.tag = .poolCleans → poolCount s (.proxy p) = 1 ∧ boxCount s p = 0) ∧
+        (X.tag = .mboxCleans → poolCount s (.proxy p) = 0 ∧ boxCount s p = 1) ∧
+        (X.tag = .freed → poolCount s (.proxy p) = 0 ∧ boxCount s p = 0)) ∧
+    (∀ u, s.units.length ≤ u → occ s u = 0 ∧ frameCount s u = 0) ∧
+    (∀ p, s.proxies.length ≤ p → poolCount s (.proxy p) = 0 ∧ boxCount s p = 0) := by
+  have h := inv_reachable hr
+  refine ⟨?_, ?_, ?_, ?_⟩
+  · intro u x hu
+    have h1 := h.iocc u
+    have h2 := h.ifc u
+    rw [hu] at h1 h2
+    simp only [expOcc, expFc] at h1 h2
+    refine ⟨fun hp => ?_, fun hp => ?_, fun hp => ?_⟩
+    · simp [hp] at h1 h2; exact ⟨h1, h2⟩
+    · rcases hp with hp | hp <;> simp [hp] at h1 h2 <;> exact ⟨h1, h2⟩
+    · simp [hp] at h1 h2; exact ⟨h1, h2⟩
+  · intro p X hX
+    have h1 := h.ipp p
+    have h2 := h.ipb p
+    rw [hX] at h1 h2
+    simp only [expPool, expBox] at h1 h2
+    refine ⟨fun ht => ?_, fun ht => ?_, fun ht => ?_, fun ht => ?_⟩
+    · simp [ht] at h1 h2; exact ⟨h1, h2, pending_of_proxy h hX ht⟩
+    · simp [ht] at h1 h2; exact ⟨h1, h2⟩
+    · simp [ht] at h1 h2; exact ⟨h1, h2⟩
+    · simp [ht] at h1 h2; exact ⟨h1, h2⟩
+  · intro u hu
+    have hn : s.units[u]? = none := by simp; omega
+    have h1 := h.iocc u
+    have h2 := h.ifc u
+    rw [hn] at h1 h2
+    exact ⟨h1, h2⟩
+  · intro p hp
+    have hn : s.proxies[p]? = none := by simp; omega
+    have h1 := h.ipp p
+    have h2 := h.ipb p
+    rw [hn] at h1 h2
+    exact ⟨h1, h2⟩
+
+open Dispatch in
+/-- **A wait covers all the work of its group, transitively.**  In every reachable state in which the wait on group `g`
+has returned (`closed`): (1) every unit ever submitted to `g` — before or during the wait, by the owner or by a running
+unit of `g` that had not yet released its own reference (rule (a) of `submit`: a child reserves before its parent
+releases), and so on transitively — has been carried out exactly once and has released its reference; the group's
+counter equals the number of units that still hold a reference, i.e. 0; (2) this is final: no later action adds a unit
+to `g` (a closed group accepts no submission, and no unit of `g` is left to submit on its behalf). -/
+theorem wait_covers_transitive {s : St} (hr : Reachable s) (g : Nat) (G : Group) (hG : s.groups[g]? = some G)
+    (hc : G.closed = true) :
+    (∀ (u : Nat) (x : UnitR), s.units[u]? = some x → x.grp = g →
+        (x.st = .released ∨ x.st = .done) ∧ x.nexec + x.ncancel = 1) ∧
+    G.refs = 0 ∧ live s g = 0 ∧
+    (∀ (a : Act) (s' : St), step s a = some s' →
+        (∀ (u : Nat) (x' : UnitR), s'.units[u]? = some x' → x'.grp = g → ∃ x : UnitR, s.units[u]? = some x ∧ x.grp = g)) := by
+  have h := inv_reachable hr
+  have hall : ∀ (u : Nat) (x : UnitR), s.units[u]? = some x → x.grp = g → (x.st = .released ∨ x.st = .done) := by
+    intro u x hu hg
+    exact h.iclosed u x G hu (by rw [hg]; exact hG) hc
+  have hlive : live s g = 0 := by
+    simp only [live]
+    apply List.countP_eq_zero.mpr
+    intro x hx
+    obtain ⟨u, hlt, hxu⟩ := List.getElem_of_mem hx
+    have hu : s.units[u]? = some x := by rw [List.getElem?_eq_getElem hlt, hxu]
+    by_cases hg : x.grp = g
+    · rcases hall u x hu hg with h1 | h1 <;> simp [h1]
+    · simp [hg]
+  have hrefs : G.refs = 0 := by
+    have := h.irefs g
+    rw [hG, hlive] at this
+    simp only [expRefs] at this
+    omega
+  refine ⟨fun u x hu hg => ⟨hall u x hu hg, ?_⟩, hrefs, hlive, ?_⟩
+  · have hcx := h.ictr u x hu
+    rcases hall u x hu hg with h1 | h1 <;> simp [h1] at hcx <;> exact hcx
+  · intro a s' hstep u x' hu' hg'
+    exact Dispatch.closed_group_final h hG hc hlive hstep hu' hg'
+
+open Dispatch in
+/-- **… transitively through the waits begun inside a unit.**  `Group.inUnit h = some u` records that the wait on group
+`h` began while its thread was inside `execute()` of unit `u` (a nested `task_group::wait`, a nested parallel algorithm, a
+`task_arena::execute` that waits).  In every reachable state: a unit that has released its reference — or returned — has no
+wait still open inside it; so when the wait on a group `g` has returned, every unit of `g` is finished (previous theorem)
+AND every wait begun inside any of them has returned too (`closed`), to which the previous theorem applies again: the
+cover is transitive through nested groups of any depth.  While such a nested wait is open it is a `wait` frame on some
+thread's stack directly above that unit's `exec` frame, and the unit is still running. -/
+theorem wait_covers_nested {s : St} (hr : Reachable s) (h : Nat) (H : Group) (hH : s.groups[h]? = some H)
+    (hb : H.began = true) (u : Nat) (hi : H.inUnit = some u) :
+    (∀ x : UnitR, s.units[u]? = some x → (x.st = .released ∨ x.st = .done) → H.closed = true) ∧
+    (∀ (g : Nat) (G : Group) (x : UnitR), s.groups[g]? = some G → G.closed = true → s.units[u]? = some x → x.grp = g →
+        H.closed = true) ∧
+    (H.closed = false → Witness s.stacks h (some u) ∧ ∃ x : UnitR, s.units[u]? = some x ∧ x.st = .running) := by
+  have hn := ninv_reachable hr
+  have key : ∀ x : UnitR, s.units[u]? = some x → (x.st = .released ∨ x.st = .done) → H.closed = true := by
+    intro x hx hst
+    cases hc : H.closed with
+    | true => rfl
+    | false =>
+      obtain ⟨y, hy, hrun⟩ := hn.run h H u hH hb hc hi
+      rw [hx] at hy
+      cases hy
+      rcases hst with h1 | h1 <;> rw [h1] at hrun <;> simp at hrun
+  refine ⟨key, ?_, ?_⟩
+  · intro g G x hG hcl hx hg
+    exact key x hx ((wait_covers_transitive hr g G hG hcl).1 u x hx hg).1
+  · intro hc
+    have hw := hn.frame h H hH hb hc
+    rw [hi] at hw
+    exact ⟨hw, hn.run h H u hH hb hc hi⟩
+
+open Dispatch in
+/-- non-vacuity of `wait_covers_nested`: unit 0 of group 0 (handed to `run_and_wait`) creates group 1 inside its body,
+submits unit 1 to it and waits; the inner wait is recorded with `inUnit = some 0`, both waits return, both units ran once -/
+example :
+    (run (init [0] 1 1) [.enter 0 0, .newGroup 0, .newCtx, .submit 0 0 0 0 .bypass, .beginWait 0 (some 0) 0, .takeBypass 0,
+      .newGroup 0, .submit 0 1 0 0 .spawn, .beginWait 0 (some 1) 0, .miss 0, .takePool 0 0 0, .takeBypass 0, .complete 0, .ret 0,
+      .miss 0, .waitReturn 0, .complete 0, .ret 0, .miss 0, .waitReturn 0]).any (fun s =>
+        s.groups.map (fun G => (G.inUnit, G.began, G.closed)) == [(none, true, true), (some 0, true, true)] &&
+        s.units.map (fun x => (x.grp, x.nexec, x.st)) == [(0, 1, .done), (1, 1, .done)] && s.stacks == [[.attach 0]]) = true := by
+  decide
+
+open Dispatch in
+/-- **It does not matter which thread takes a unit.**  In every reachable state, ANY thread `t` that is in a dispatch
+loop (innermost frame `wait`), holds nothing in its hand and satisfies the structural guard of a source — the occupant
+of slot `v` at `localPool`, any thread of another slot of the same arena at `steal` (`PoolGuard`), the occupant of the
+recipient slot at `mailbox`, any thread of the arena at the stream's position — with an isolation that admits the unit,
+can take it: the step is enabled, leads to a reachable state (so every theorem of this file holds there again) and the
+unit is then in `t`'s hand and nowhere else.  For a mailed task the two-sided claim decides: whichever side comes first
+gets the unit and turns the proxy's tag to the OTHER side's cleaner value (`enabled_takePool_proxy`, `enabled_takeBox`);
+the side that comes second finds the proxy emptied, gets nothing and frees it (`enabled_takePool_emptied`,
+`enabled_takeBox_emptied`).  Whoever holds the unit then executes it — or cancels it iff its context is cancelled —
+exactly once (`enabled_takeBypass`).  No guard mentions the identity of the thread. -/
+theorem any_taker {s : St} (hr : Reachable s) {t : Tid} {g : Option Nat} {w : Nat} {rest : List Frame} {k : Nat}
+    (hst : s.stacks[t]? = some (.wait g w :: rest)) (hk : curSlot rest = some k) (hby : s.bypass[t]? = some none) :
+    (∀ (v i u : Nat) (P : List Entry) (x : UnitR), s.pools[v]? = some P → P[i]? = some (.task u) → s.units[u]? = some x → isoOk w x.iso = true →
+        PoolGuard s t k v →
+        ∃ s', step s (.takePool t v i) = some s' ∧ Reachable s' ∧ s'.bypass[t]? = some (some u) ∧ occ s' u = 1) ∧
+    (∀ (v i p : Nat) (P : List Entry) (X : Proxy) (x : UnitR), s.pools[v]? = some P → P[i]? = some (.proxy p) → s.proxies[p]? = some X → X.tag = .shared →
+        s.units[X.unit]? = some x → isoOk w x.iso = true → PoolGuard s t k v →
+        ∃ s', step s (.takePool t v i) = some s' ∧ Reachable s' ∧ s'.bypass[t]? = some (some X.unit) ∧
+          s'.proxies[p]? = some { X with tag := .mboxCleans } ∧ occ s' X.unit = 1) ∧
+    (∀ (i p : Nat) (B : List Nat) (X : Proxy) (x : UnitR), s.boxes[k]? = some B → B[i]? = some p → s.proxies[p]? = some X → X.tag = .shared →
+        s.units[X.unit]? = some x → isoOk w x.iso = true → s.look[t]? = some .mailbox →
+        ∃ s', step s (.takeBox t i) = some s' ∧ Reachable s' ∧ s'.bypass[t]? = some (some X.unit) ∧
+          s'.proxies[p]? = some { X with tag := .poolCleans } ∧ occ s' X.unit = 1) ∧
+    (∀ (a kind i u : Nat) (S : List Nat) (x : UnitR), s.slotArena[k]? = some a → kind < 3 → s.streams[3 * a + kind]? = some S → S[i]? = some u →
+        s.units[u]? = some x → streamLookOk kind s.look[t]? w x.iso = true →
+        ∃ s', step s (.takeStream t kind i) = some s' ∧ Reachable s' ∧ s'.bypass[t]? = some (some u) ∧ occ s' u = 1) := by
+  have occ1 : ∀ {s' : St} {u : Nat}, Reachable s' → s'.bypass[t]? = some (some u) → occ s' u = 1 := by
+    intro s' u hr' hb
+    obtain ⟨x, hx, hp⟩ := pending_of_bypass (inv_reachable hr') hb
+    exact ((dispatch_no_loss hr').1 u x hx).1 hp |>.1
+  refine ⟨?_, ?_, ?_, ?_⟩
+  · intro v i u P x hP hi hu hiso hg
+    obtain ⟨s', h1, h2, h3⟩ := enabled_takePool_task hr hst hk hby hP hi hu hiso hg
+    exact ⟨s', h1, h2, h3, occ1 h2 h3⟩
+  · intro v i p P X x hP hi hX ht hu hiso hg
+    obtain ⟨s', h1, h2, h3, h4⟩ := enabled_takePool_proxy hr hst hk hby hP hi hX ht hu hiso hg
+    exact ⟨s', h1, h2, h3, h4, occ1 h2 h3⟩
+  · intro i p B X x hB hi hX ht hu hiso hl
+    obtain ⟨s', h1, h2, h3, h4⟩ := enabled_takeBox hr hst hk hby hl hB hi hX ht hu hiso
+    exact ⟨s', h1, h2, h3, h4, occ1 h2 h3⟩
+  · intro a kind i u S x ha hkind hS hi hu hl
+    obtain ⟨s', h1, h2, h3⟩ := enabled_takeStream hr hst hk hby ha hkind hS hi hu hl
+    exact ⟨s', h1, h2, h3, occ1 h2 h3⟩
+
+open Dispatch in
+/-- non-vacuity of the composition theorems — one arena with two slots, two threads: the main thread (slot 0) submits a
+plain task, a task mailed to slot 1 and an enqueued task of one group and waits; the worker (slot 1) claims the mailed
+task from its mailbox, the main thread takes its own task, finds the emptied proxy in its pool and frees it, the worker
+takes the enqueued task from the fifo stream; when the group's counter reads 0 the wait returns.  The final state is
+reachable, the group is closed, every unit ran exactly once, the proxy is freed. -/
+example :
+    (run (init [0, 0] 1 2) [.enter 0 0, .enter 1 1, .beginWait 1 none 0, .newGroup 0, .newCtx,
+      .submit 0 0 0 0 .spawn, .submit 0 0 0 0 (.mail 1), .submit 0 0 0 0 (.stream 0 1), .beginWait 0 (some 0) 0,
+      .miss 1, .miss 1, .takeBox 1 0, .takeBypass 1,
+      .miss 0, .takePool 0 0 0, .takePool 0 0 0, .takeBypass 0, .complete 0, .ret 0,
+      .complete 1, .ret 1, .miss 1, .miss 1, .miss 1, .miss 1, .takeStream 1 1 0, .takeBypass 1, .complete 1, .ret 1,
+      .miss 0, .waitReturn 0]).any (fun s => s.groups.map (·.closed) == [true] &&
+        s.units.map (fun x => (x.nexec, x.ncancel, x.st)) == [(1, 0, .done), (1, 0, .done), (1, 0, .done)] &&
+        s.proxies.map (·.tag) == [.freed] && s.pools == [[], []] && s.boxes == [[], []]) = true := by
   decide
 
 end TbbVerif.C01
